@@ -232,7 +232,12 @@ class Model:
         else:
             k = ev['kind']
             if k == 'select':
-                if ev['outcome'] < 0:
+                if ev['outcome'] == -2:
+                    # `v, ok := <-ch` observing a closed (and drained) channel: ok == false
+                    cid = ev['cases'][0]['chan']
+                    guard.append(s['closed'][cid])
+                    if self.chans[cid]['cap'] > 0: guard.append(s['cnt'][cid] == 0)
+                elif ev['outcome'] < 0:
                     for cs in ev['cases']:
                         guard.append(Not(self.case_ready_alone(cs, s)))
                 else:
@@ -247,6 +252,7 @@ class Model:
                         if c['cap'] == 0:
                             if cs['dir'] == 'recv':
                                 guard.append(s['closed'][cid])  # alone only when closed (zero value)
+                                if ev.get('commaok'): guard.append(BoolVal(False))  # the closed case is outcome -2
                                 if cs.get('res') in p['vars']:
                                     upd[('v', pi, cs['res'])] = BitVecVal(self.N if p['vars'][cs['res']] == 0 else 0, s['v'][pi][cs['res']].size())
                             else:
@@ -255,7 +261,7 @@ class Model:
                             cnt = s['cnt'][cid]; slots = s['slot'][cid]
                             if cs['dir'] == 'recv':
                                 nonempty = cnt != 0
-                                guard.append(Or(nonempty, s['closed'][cid]))
+                                guard.append(nonempty if ev.get('commaok') else Or(nonempty, s['closed'][cid]))
                                 if cs.get('res') in p['vars']:
                                     zero = BitVecVal(self.N if p['vars'][cs['res']] == 0 else 0, s['v'][pi][cs['res']].size())
                                     upd[('v', pi, cs['res'])] = If(nonempty, slots[0], zero)
